@@ -18,7 +18,7 @@ def gen_cp1252():
         parts.append(f"cp1252Table_{i // 32}")
     t += "def cp1252Table : List (Nat × Nat) := " + " ++ ".join(parts) + "\n"
     import sys
-    t += f"def intMaxStrDigits : Nat := {sys.get_int_max_str_digits()}\n"
+    t += f"def intMaxStrDigitsC04 : Nat := {sys.get_int_max_str_digits()}\n"
     from bs4.builder import HTMLTreeBuilder
     from bs4 import BeautifulSoup
     voids = sorted(HTMLTreeBuilder.DEFAULT_EMPTY_ELEMENT_TAGS)
